@@ -56,6 +56,18 @@ func c05World(r *rand.Rand) (files map[string]string, element, food string, dept
 		}
 		book = append(book, gen.Recipe{Name: fmt.Sprintf("ch%d", i), Ents: []gen.Ent{{Name: next, Val: gen.N("1")}}})
 	}
+	shared := !chainOnly && r.Intn(2) == 0
+	if shared {
+		// a sub-recipe shared by several recipes, one of which lists it first with a quantity of exactly 1 and
+		// then contributes to elements the sub-recipe already has: whatever a resolver does in place to a list
+		// it took over from the sub-recipe shows in the others depending on the visiting order
+		book = append(book,
+			gen.Recipe{Name: "sh/base", Ents: []gen.Ent{{Name: basics[0], Val: gen.N("100")}, {Name: basics[1], Val: gen.N("10")}, {Name: basics[2], Val: gen.N("3")}}},
+			gen.Recipe{Name: "sh/first", Ents: []gen.Ent{{Name: "sh/base", Val: gen.N("1")}, {Name: basics[0], Val: gen.N("50")}, {Name: basics[3], Val: gen.N("7")}, {Name: basics[1], Val: gen.N("2")}}},
+			gen.Recipe{Name: "sh/twice", Ents: []gen.Ent{{Name: "sh/base", Val: gen.N("2")}}},
+			gen.Recipe{Name: "sh/thrice", Ents: []gen.Ent{{Name: basics[3], Val: gen.N("1")}, {Name: "sh/base", Val: gen.N("3")}}},
+			gen.Recipe{Name: "sh/also", Ents: []gen.Ent{{Name: "sh/base", Val: gen.N("1.0")}, {Name: "sh/twice", Val: gen.N("1")}}})
+	}
 	r.Shuffle(len(book), func(a, b int) { book[a], book[b] = book[b], book[a] })
 	var log gen.Log
 	d := gen.Date{Y: 2021, M: 3, D: 1}
@@ -66,6 +78,9 @@ func c05World(r *rand.Rand) (files map[string]string, element, food string, dept
 			pool = append(append([]string{}, unknown...), basics...)
 		}
 		pool = append(pool, "ch1", "ch2")
+		if shared {
+			pool = append(pool, "sh/twice", "sh/thrice", "sh/first", "sh/base", "sh/also")
+		}
 		for j := 0; j < 3+r.Intn(8); j++ {
 			day.Ents = append(day.Ents, gen.Ent{Name: pool[r.Intn(len(pool))], Val: c05Val(vals[r.Intn(len(vals))])})
 		}
